@@ -241,6 +241,10 @@ func (g *TxGen) mkAddEscrow() *GenTx {
 
 func (g *TxGen) mkReclaim() *GenTx {
 	a := g.pickSigner()
+	// The first two genesis entities keep their self-delegation (election precondition).
+	for a == g.h.Sc.Entities[0].Account || a == g.h.Sc.Entities[1].Account {
+		a = g.pickSigner()
+	}
 	// Find an escrow account the signer has a delegation in.
 	var from staking.Address
 	var shares quantity.Quantity
